@@ -163,6 +163,16 @@ BechLaws ==
                       /\ (d.accept => dh = [d EXCEPT !.hrp = h, !.fornets = NetsWithHrp(h)])
 
 -----------------------------------------------------------------------------
+(* mixed: the ways a string can mix cases.  base: the case of the string, one   *)
+(* or all occurrences of a letter are put in the other case; the letter is the  *)
+(* first or the last of the alphabet (the ends of the ranges a..z / A..Z) or    *)
+(* any other; it sits in the prefix or in the data part; ver 0 / 1: bech32 /    *)
+(* bech32m.  All of them are the one mixed row of the table.                    *)
+MixedRow == CanonBech(BechStr(TableHrp, "none", "mixed", "bad", -1, 0, TRUE, FALSE))
+MixedLaws ==
+    case.kind = "mixed" => ~expect.d.accept /\ ~expect.impl.accept /\ expect = BechExpect(MixedRow)
+
+-----------------------------------------------------------------------------
 (* b58 *)
 
 B58Str(v, plen, ck, defect, sp) == [v |-> v, plen |-> plen, ck |-> ck, defect |-> defect, segprefix |-> sp]
@@ -662,7 +672,7 @@ Init == case = [kind |-> "root"] /\ expect = None
 G(of, g) == case' = [kind |-> "group", of |-> of, g |-> g]
 Group == /\ case.kind = "root"
          /\ expect' = None
-         /\ \/ G("net", 0) \/ G("spend", 0) \/ G("wifobj", 0) \/ G("hdvec", 0)
+         /\ \/ G("net", 0) \/ G("mixed", 0) \/ G("spend", 0) \/ G("wifobj", 0) \/ G("hdvec", 0)
             \/ \E v \in BechVers : G("bech", <<TableHrp, v>>)
             \/ G("bechdefect", TableHrp)
             \/ \E dn \in B58Nets : G("b58", dn) \/ G("pkhex", dn)
@@ -699,6 +709,13 @@ PickBechDefect ==
              IN  case' = [kind |-> "bech", s |-> s] /\ expect' = BechExpect(s)
        \/ LET s == CanonBech(BechStr(case.g, "none", "mixed", "bad", -1, 0, TRUE, FALSE))
           IN  case' = [kind |-> "bech", s |-> s] /\ expect' = BechExpect(s)
+
+PickMixed ==
+    /\ InGroup("mixed")
+    /\ \E base \in {"lower", "upper"}, letter \in {"a", "z", "other"}, where \in {"hrp", "data"},
+          count \in {"one", "all"}, ver \in {0, 1} :
+          /\ case' = [kind |-> "mixed", base |-> base, letter |-> letter, where |-> where, count |-> count, ver |-> ver]
+          /\ expect' = BechExpect(MixedRow)
 
 PickB58 ==
     /\ InGroup("b58")
@@ -817,7 +834,7 @@ PickTapGen ==
           IN  case' = [kind |-> "tapgen", leaves |-> leaves]
               /\ expect' = TreeExpect(tr, leaves, tr, [i \in 1..case.g |-> ProofOf(tr, leaves, i)])
 
-Next == \/ Group \/ PickNet \/ PickBech \/ PickBechDefect \/ PickB58 \/ PickPkHex \/ PickVec32 \/ PickVec58
+Next == \/ Group \/ PickNet \/ PickMixed \/ PickBech \/ PickBechDefect \/ PickB58 \/ PickPkHex \/ PickVec32 \/ PickVec58
         \/ PickEdit \/ PickAddr \/ PickScript \/ PickWitProg \/ PickSpend \/ PickWif \/ PickWifObj
         \/ PickHd \/ PickHdVec \/ PickHdStr \/ PickTap \/ PickTapGen
 
